@@ -217,6 +217,14 @@ func checkC07(c *Ctx) {
 			}
 		}
 	}
+	// RFC 9180 §5.1: an input is "provided" when it differs from the default, the empty string; an
+	// empty but non-nil slice is therefore absent
+	for mode := int64(0); mode < 4; mode++ {
+		wantOK := mode == 0 || mode == 2
+		c.evalAcceptRule(p, "C07.psk", fmt.Sprintf("mode=%d with empty (zero-length, non-nil) psk and psk_id must be %s", mode, map[bool]string{true: "accepted (inputs absent)", false: "rejected (inputs absent)"}[wantOK]),
+			vp, map[string]lat{"psk": latSliceLen(0), "pskID": latSliceLen(0)},
+			[]ValAssume{{Name: "st.modeID", Match: fieldRead("modeID"), Val: latInt(mode)}}, wantOK)
+	}
 	c.guard(p, "C07.psk", "key schedule succeeds only if the PSK inputs verify", ks, GuardSpec{Assumes: []Assume{calleeAssume(latNonNil, -1, "(hpke.state).verifyPSKInputs")}})
 
 	// ---- C07.modes ----
@@ -283,7 +291,7 @@ func checkC07(c *Ctx) {
 
 func presence(b bool) lat {
 	if b {
-		return latNonNil
+		return latNonEmpty
 	}
 	return latNil
 }
